@@ -13,7 +13,11 @@ def run_deductive(rep):
     rep.trust("pandas dependency contracts as in C04", "z3", "pyvc symbolic executor")
     from ..contracts.to_simple import SimpleConstraints
     from .C04_more import simple_canaries
+    from ..contracts.to_eo import EqualizedOddsSelection
     items = [hull_item()] + tradeoff_items("quick")[:2] + [(SimpleConstraints(), simple_canaries()[1:2] + simple_canaries()[3:])]
+    # equalized odds: the shared grid point maximises the overall (balanced) accuracy of the classifier on the pointwise-lowest hull
+    items += [(EqualizedOddsSelection("accuracy_score"), [("worst_grid_point_selected", verify.replace_expr("objective_values.idxmax()", "objective_values.idxmin()"))]),
+              (EqualizedOddsSelection("balanced_accuracy_score"), [])]
     verify.verify_many(rep, items)
     from ..static import provenance
     provenance.report(rep, only=("postprocessing/",))
